@@ -781,9 +781,14 @@ func (e *Env) execOpts(x Exec) []z.ExecOption {
 // dest must be a pointer to a value of the schema's destination type. A panic
 // is recovered and reported in the result.
 func Run(schema z.ZogSchema, e *Env, x Exec, data any, dest reflect.Value) (res *Result) {
+	return RunWith(schema, e, x, data, dest, nil)
+}
+
+// RunWith is Run with additional execution options.
+func RunWith(schema z.ZogSchema, e *Env, x Exec, data any, dest reflect.Value, extra []z.ExecOption) (res *Result) {
 	res = &Result{Dest: dest}
 	e.Reset()
-	opts := e.execOpts(x)
+	opts := append(e.execOpts(x), extra...)
 	defer func() {
 		if p := recover(); p != nil {
 			if s, ok := p.(string); ok && strings.HasPrefix(s, "model:") {
